@@ -143,6 +143,13 @@ def run(chk: Check, eng: Engine) -> None:
     _memo = memo_attribute(eng, _parser)
     _g, _s = memo_helpers(_parser, _memo)
     _key_rule(chk, eng, _parser, _memo, _g, _s, rule="R04-g", only={"mode", "start", "word"})
+    chk.rule("R04-l", "the start symbol (and the other settings) a parse command uses are its own: helpers do not write into the session defaults they are lent", floor=3)
+    from .c18 import lent_globals_rule
+    lent_globals_rule(chk, eng, "R04-l")
+    chk.rule("R04-k", "no function a parse request reaches (scanners, terminal matching) is memoised by a decorator whose key leaves out something it reads: a literal and a regex "
+             "with the same text are one key", floor=1)
+    from .common_memo import decorated_memo_rule
+    decorated_memo_rule(chk, eng, "R04-k", [f.fq for f in eng.ix.all_functions if f.cls is not None and f.cls.name == "Grammar" and f.name.startswith("parse")], "parse results")
     chk.rule("R04-j", "the verdicts the API filter relies on come from a memo whose key distinguishes bindings (get_hash covers the items of scope and local variables)", floor=3)
     from .c11 import gethash_rule
     gethash_rule(chk, eng, "R04-j")
@@ -481,6 +488,7 @@ _IP = "src/fandango/language/grammar/parser/iterative_parser.py"
 _R = "src/fandango/language/grammar/nodes/repetition.py"
 _CMP = "src/fandango/constraints/comparison.py"
 MUTANTS = [
+    M("terminal-matching-memoised-by-value", "src/fandango/language/symbols/terminal.py", "    def check(\n", "    @lru_cache(maxsize=16384)\n    def check(\n", "R04-k"),
     M("byte-scan-alignment-guard-removed", _IP, "                        elif curr_table_idx % 8 != 0:\n                            # Bytes and regexes are scanned at byte boundaries only: inside a\n                            # partly consumed byte there is no whole byte to match.\n                            match = False\n", "", "R04-i"),
     M("byte-scan-unaligned", _IP, "                        elif curr_table_idx % 8 != 0:\n", "                        elif curr_table_idx % 8 != 0 and False:\n", "R04-i"),
     M("string-specs-share-name", "src/fandango/language/parse/parse.py", "            name = \"<string>\" if string_specs == 1 else f\"<string-{string_specs}>\"\n", "            name = \"<string>\"\n", "R04-h"),
